@@ -59,6 +59,7 @@ case_strategy = st.fixed_dictionaries({
     # the image stored as integers (BITPIX 16 / 32, no scaling cards): the field is rounded to whole numbers and has no
     # blank pixels (integer images cannot hold NaN)
     "intpix": st.sampled_from([None, None, None, None, None, "i2", "i4"]),
+    "cores": st.sampled_from([1, 1, 1, 2, 3]),      # worker processes of the finder (the catalogue must not depend on it)
 })
 
 
@@ -131,7 +132,7 @@ def run_case(c, path, F):
         docov = True
     else:
         docov = c["docov"]
-    blind = SourceFinder().find_sources_in_image(path, rms=1.0, bkg=0.0, innerclip=5, outerclip=4, docov=docov, cores=1,
+    blind = SourceFinder().find_sources_in_image(path, rms=1.0, bkg=0.0, innerclip=5, outerclip=4, docov=docov, cores=c.get("cores", 1),
                                                  doislandflux=c["islandflux"], max_summits=c["max_summits"], **skyimg.cube_kw(c.get("rep")))
     if c["mode"] == "blind":
         return blind, docov
@@ -142,7 +143,7 @@ def run_case(c, path, F):
     else:
         cat = synth_catalogue(F, c)
     out = SourceFinder().priorized_fit_islands(path, catalogue=cat, rms=1.0, bkg=0.0, stage=c["stage"], doregroup=c["regroup"],
-                                               docov=docov, cores=1, **skyimg.cube_kw(c.get("rep")))
+                                               docov=docov, cores=c.get("cores", 1), **skyimg.cube_kw(c.get("rep")))
     return out, docov
 
 
